@@ -1,6 +1,7 @@
 (* C20 — the optional mock server builds and answers with examples (theories/Mock.v).
-   [rpc_walks sc ex ft = Some ws]: the model followed every response type (acyclic, no well-known
-   type other than Timestamp); ws pairs each RPC with the assignments the generator prints for it,
+   [rpc_walks sc ex ft = Some ws]: the model followed every response type (no well-known type other
+   than Timestamp; recursive types are fine since 1e0a1c9: the walk carries the set of message types
+   being filled and leaves a field of such a type unset); ws pairs each RPC with the assignments the generator prints for it,
    their build obligations, and per response leaf the SET of values the random selectors can return. *)
 From Sebuf Require Import Text Json Schema Num Emit Mock.
 From SebufProofs Require Import EmitFacts MockFacts.
@@ -21,6 +22,34 @@ Theorem C20_examples_used : forall sc ex ft ws,
   lf_values l <> [] /\ forall v, In v (lf_values l) -> exists e, In e (lf_decl l) /\ parse_as ft (lf_kind l) e = Some v.
 Proof. exact examples_used_lemma. Qed.
 Print Assumptions C20_examples_used.
+
+(* The guarded walk (1e0a1c9) finishes on EVERY closed schema, recursive or not, within depth
+   |messages|+1: the path of message types being filled is duplicate-free and drawn from the schema. *)
+Theorem C20_guarded_walk_terminates : forall sc fl ex ft, closed sc ->
+  forall fuel path m p, In m (all_messages sc) -> NoDup path -> incl path (msg_names sc) -> ~ In (m_name m) path ->
+    List.length (msg_names sc) < fuel + List.length path ->
+    mock_walk fuel sc fl ex ft path m p <> None.
+Proof. exact mock_walk_terminates. Qed.
+Print Assumptions C20_guarded_walk_terminates.
+Theorem C20_rpc_walk_terminates : forall sc ex ft fl md m,
+  closed sc -> output_msg sc md = Some m -> rpc_walk sc ex ft fl md <> None.
+Proof. exact rpc_walk_terminates. Qed.
+Print Assumptions C20_rpc_walk_terminates.
+
+(* recursive responses: the mock builds, fills the scalar fields and leaves every field whose type is
+   being filled unset (singular, optional, repeated) or its map empty *)
+Example C20_self_recursive_response :
+  case_defects self_recursive_case = Some [] /\ case_builds self_recursive_case = Some true /\
+  case_present self_recursive_case = Some [] /\
+  case_leaf self_recursive_case "v" = Some [s "a"; s "b"] /\ case_leaf self_recursive_case "n" = Some [s "42"] /\
+  case_leaf self_recursive_case "next.v" = None /\ case_leaf self_recursive_case "by[sample_key].v" = None.
+Proof. exact self_recursive_facts. Qed.
+Example C20_mutually_recursive_response :
+  case_defects mutual_case = Some [] /\ case_builds mutual_case = Some true /\
+  case_present mutual_case = Some [s "b"; s "b.c"] /\
+  case_leaf mutual_case "b.n" = Some [s "42"] /\ case_leaf mutual_case "b.c.ok" = Some [s "true"] /\
+  case_leaf mutual_case "b.a.title" = None.
+Proof. exact mutual_facts. Qed.
 
 Example C20_nonvacuous :
   let '(sc, _, _) := good_mock in accepted sc = true /\
